@@ -51,9 +51,12 @@ class ExprMixin:
             raise OutOfReach("expression %s not in subset (%s:%s)" % (type(e).__name__, fx.qualname, getattr(e, "lineno", "?")))
         return m(e, st, fx)
 
-    def eval_const(self, e, mfx):
-        st = State()
+    def eval_const(self, e, mfx, st=None):
+        st = st if st is not None else State()
+        saved = st.env
+        st.env = {}
         evs = self.ev(e, st, mfx)
+        st.env = saved
         if len(evs) != 1 or evs[0].exc is not None:
             raise OutOfReach("non-constant default/constant expression: " + ast.unparse(e))
         return evs[0].val
@@ -113,7 +116,7 @@ class ExprMixin:
             key = (m.modname, n)
             if key in getattr(self, "global_overrides", {}):
                 return self.global_overrides[key]
-            return self.eval_const(m.assigns[n], self._modframe(m))
+            return self.eval_const(m.assigns[n], self._modframe(m), st)
         if n in m.imports:
             mod, name = m.imports[n]
             if name is None:
@@ -134,7 +137,7 @@ class ExprMixin:
                     if name in tm.classes:
                         return ClassV(mod + ":" + name)
                     if name in tm.assigns:
-                        return self.eval_const(tm.assigns[name], self._modframe(tm))
+                        return self.eval_const(tm.assigns[name], self._modframe(tm), st)
                     if name in tm.imports:   # re-export
                         return self.global_name(name, st, self._modframe(tm))
                 # submodule import (from pymemcache import pool)
@@ -237,7 +240,7 @@ class ExprMixin:
         node = m.class_assigns.get((c, name))
         if node is None:
             return None
-        return self.eval_const(node, self._modframe(m))
+        return self.eval_const(node, self._modframe(m), st)
 
     def ghost_attr(self, v, name, st):
         return None
@@ -334,6 +337,13 @@ class ExprMixin:
         if isinstance(v, NoneV):
             return z3.StringVal("None")
         if isinstance(v, IntV):
+            t = z3.simplify(v.t)
+            if not z3.is_int_value(t):
+                # A-int made explicit (SMT-LIB: str.from_int of a non-negative integer is its decimal digits)
+                digits = z3.Plus(z3.Range("0", "9"))
+                st.assume(z3.Implies(v.t >= 0, z3.InRe(z3.IntToStr(v.t), digits)),
+                          z3.Implies(v.t < 0, z3.InRe(z3.IntToStr(-v.t), digits)),
+                          z3.InRe(self.dec(v.t), z3.Concat(z3.Option(z3.Re("-")), digits)))
             return self.dec(v.t)
         if isinstance(v, BoolV):
             return z3.If(v.t, z3.StringVal("True"), z3.StringVal("False"))
